@@ -7,6 +7,7 @@ import (
 	"encoding/json"
 	"fmt"
 	"os"
+	"runtime/debug"
 )
 
 type handler func(in map[string]any) map[string]any
@@ -21,6 +22,8 @@ func main() {
 		os.Exit(2)
 	}
 	cmd := os.Args[1]
+	// infinite recursion must kill the process quickly (fatal, not recoverable)
+	debug.SetMaxStack(256 << 20)
 	if cmd == "tables" {
 		if err := writeTables(os.Args[2]); err != nil {
 			fmt.Fprintln(os.Stderr, err)
@@ -49,5 +52,6 @@ func main() {
 		if err := enc.Encode(out); err != nil {
 			panic(err)
 		}
+		wr.Flush()
 	}
 }
